@@ -111,6 +111,31 @@ def evaluate(case):
     if not np.allclose(m, case["factor"] * m1, rtol=1e-12, atol=1e-13 * scale):
         viol.append(V("scales-with-mobility-factor", f"multiplying mobility by {case['factor']} does not multiply "
                       "the pseudopressure by the same factor", case=case))
+    # ... and with the factor in the viscosities instead (another unit system: Pa s instead of cp, or smaller still)
+    for f_mu in (1e-3, 1e-7):
+        tb_u = dict(tb)
+        for k_ in ("mu_o", "mu_g", "mu_w"):
+            tb_u[k_] = tb[k_] * f_mu
+        m_u = np.asarray(fp.pseudopressure_threephase(p, So, mp.interp_pvt(tb_u, rho), kr), dtype=float)
+        if not np.allclose(m_u * f_mu, m, rtol=1e-12, atol=1e-13 * scale):
+            viol.append(V("scales-with-mobility-factor/viscosity-units", f"dividing mobility by {f_mu} through the viscosities "
+                          f"(another unit system) does not scale the pseudopressure accordingly (max rel diff "
+                          f"{np.max(np.abs(m_u * f_mu - m)) / scale:.3g})", case=case))
+            break
+    # the same PVT / rel-perm functions evaluated on ANOTHER pressure grid with the table's length and end points
+    # (only the interior differs): the integral is over the grid that was passed
+    pf_ = np.asarray(p, dtype=float)
+    p2 = pf_[0] + (pf_[-1] - pf_[0]) * np.linspace(0.0, 1.0, len(pf_)) ** 2
+    p2[-1] = pf_[-1]
+    So2 = np.interp(p2, pf_, So)
+    tb2 = {k_: np.interp(p2, pf_, tb[k_]) for k_ in mp.PROPS}
+    m2 = np.asarray(fp.pseudopressure_threephase(p2, So2, pvt, kr), dtype=float)
+    want2 = trapezoid_cum(mp.lam_doc(p2, So2, tb2, kr, rho), p2)
+    if m2.shape != want2.shape or not np.max(np.abs(m2 - want2)) <= 1e-11 * max(abs(want2[-1]), 1e-300):
+        viol.append(V("integral-of-total-mobility/other-grid", "called on another pressure grid with the table's length and end "
+                      "points, the result is not the integral of total mobility over THAT grid (max diff "
+                      f"{(np.max(np.abs(m2 - want2)) / max(abs(want2[-1]), 1e-300)) if m2.shape == want2.shape else 'shape'} of the range)",
+                      case=case))
     # the scaled pseudopressure of the wrapper built from it
     key = None
     if lam.min() > 0:
